@@ -34,6 +34,8 @@ type Check struct {
 	Workers int
 	// StallSeconds without progress before a worker is declared hung (0 = 120)
 	StallSeconds int
+	// Variants: binary name suffixes ("" = the default build); the enumeration is run once per variant
+	Variants []string
 	// MinDistinct etc: vacuity guards evaluated by the supervisor on merged counters: name -> minimum
 	Guards map[string]int64
 }
@@ -55,6 +57,7 @@ type Ctx struct {
 	NShards int
 	Trace   bool
 	Only    int64 // if >=0: evaluate only this case index (pin-pointing)
+	Variant string // build variant of this worker binary ("" default, "-purego", ...)
 
 	idx        int64
 	progress   int64
@@ -173,6 +176,10 @@ func RunWorker(chk *Check, tier string, seed int64, shard, nshards int, outfile 
 		Counters: map[string]int64{}, viol: map[string]*Violation{}, distinct: map[string]map[uint64]struct{}{}, maxSamples: 3}
 	if budget > 0 {
 		c.deadline = time.Now().Add(budget)
+	}
+	if exe, err := os.Executable(); err == nil {
+		base := exe[strings.LastIndex(exe, "/")+1:]
+		c.Variant = strings.TrimPrefix(base, "vcheck")
 	}
 	stop := make(chan struct{})
 	go func() { // heartbeat: progress counter once per second on stderr
